@@ -18,7 +18,7 @@ ASSUMPTIONS = c02.ASSUMPTIONS[:4] + [
     'bounded liveness: "eventually" = within sum(generated delays/backoffs) + 120 virtual seconds after the last action, then a 90 s silent window',
     'no API faults other than kills (C12 covers those); handlers have finitely many scripted failures',
 ]
-BUDGET = {'quick': 40, 'thorough': 1000}
+BUDGET = {'quick': 120, 'thorough': 1000}
 FINDING_A = 'C03-A-midcycle-edit-not-seen-by-finished-handler'
 FINDING_L = 'C03-L-stale-view-purge-leaves-records'
 FINDING_M = 'C03-M-revert-to-handled-state-leaves-records'
